@@ -96,7 +96,7 @@ fn scenario(out: &mut Shards, rng: &mut Rng, nbits: u64, k: u16, seed: u64, n_it
     let mut fs = vec![mk(), mk()];
     let cap = fs[0].capacity() as u64;
     for id in 0..2 {
-        out.ev(json!({"op":"BNew","id":id,"cap":cap,"k":k}));
+        out.ev(json!({"op":"BNew","id":id,"cap":cap,"k":k,"nbits":nbits}));
     }
     let items: Vec<Item> = (0..n_items)
         .map(|i| match i % 7 {
@@ -205,7 +205,7 @@ fn saturated(out: &mut Shards, rng: &mut Rng, nbits: u64, k: u16) {
     let mut fs = vec![mk(), mk()];
     let cap = fs[0].capacity() as u64;
     for id in 0..2 {
-        out.ev(json!({"op":"BNew","id":id,"cap":cap,"k":k}));
+        out.ev(json!({"op":"BNew","id":id,"cap":cap,"k":k,"nbits":nbits}));
     }
     let r: Result<(), String> = catch(std::panic::AssertUnwindSafe(|| {
         // mask = complement of an empty filter (every bit set)
